@@ -146,6 +146,9 @@ func (m *Charge) GetTotal() num.Amount {
 }
 
 func (m *Charge) removeIncludedTaxes(cat cbc.Code) *Charge {
+	if m == nil {
+		return nil
+	}
 	accuracy := defaultTaxRemovalAccuracy
 	rate := m.Taxes.Get(cat)
 	if rate == nil || rate.Percent == nil {
@@ -168,6 +171,9 @@ func calculateCharges(lines []*Charge, cur currency.Code, sum num.Amount, rr cbc
 		return
 	}
 	for i, l := range lines {
+		if l == nil {
+			continue
+		}
 		l.Index = i + 1
 		if l.Percent != nil && !l.Percent.IsZero() {
 			base := sum
@@ -187,6 +193,9 @@ func calculateChargeSum(charges []*Charge, cur currency.Code) *num.Amount {
 	}
 	total := cur.Def().Zero()
 	for _, l := range charges {
+		if l == nil {
+			continue
+		}
 		total = total.MatchPrecision(l.Amount)
 		total = total.Add(l.Amount)
 	}
@@ -195,7 +204,7 @@ func calculateChargeSum(charges []*Charge, cur currency.Code) *num.Amount {
 
 func (m *Charge) round(cur currency.Code) {
 	// Default round to currency, or use base if present
-	e := cur.Def().Subunits
+	e := cur.Def().Zero().Exp()
 	if m.Base != nil {
 		e = m.Base.Exp()
 	}
@@ -204,7 +213,9 @@ func (m *Charge) round(cur currency.Code) {
 
 func roundCharges(lines []*Charge, cur currency.Code) {
 	for _, l := range lines {
-		l.round(cur)
+		if l != nil {
+			l.round(cur)
+		}
 	}
 }
 
